@@ -466,6 +466,115 @@ func judgeFresh(c *core.Ctx, f fcase, o panrun.Obs) {
 		Expected: "[true, true, ...]: an iterator made by new yields the same whatever happened to its receiver before", Observed: o.Short(), Repro: "zz := {||\n" + f.src() + "\n}\nzz().p\n"})
 }
 
+// ---------------------------------------------------------------- one literal evaluated several times
+
+// An iterator literal written inside a factory function is evaluated on every call of the factory: each result
+// is bound to the scope (and to the keyword defaults) of ITS evaluation. Expected values follow from arithmetic:
+// an iterator started at i with step d yields i, i+d, ... below 10.
+var factories = []struct {
+	name, src string
+	stepKw    bool // the iterator declares the keyword parameter `step`
+}{
+	{"kw-default-from-scope", "mk := {|d| <{|i, step: d| yield i if i < 10; recur(i + step)}>}", true},
+	{"body-reads-scope", "mk := {|d| <{|i| yield i if i < 10; recur(i + d)}>}", false},
+	{"kw-default-expression-threaded", "mk := {|d| <{|i, step: d * 1| yield i if i < 10; recur(i + step, step: step)}>}", true},
+	{"literal-in-chain-block", "mk := {|d| [d]@{|e| <{|i, step: e| yield i if i < 10; recur(i + step)}>}[0]}", true},
+}
+
+type facOp struct {
+	src            string
+	start, d, step int // step > 0: an explicit step: argument
+}
+
+var facOps = []facOp{
+	{"mk(2).new(0).A", 0, 2, 0}, {"mk(3).new(0).A", 0, 3, 0}, {"[mk(4).new(2).next]", 2, 4, -1}, {"mk(2).new(1, step: 5).A", 1, 2, 5}, {"{|| h := mk(5); h.new(0).A}()", 0, 5, 0}, {"mk(3).new(1).A", 1, 3, 0},
+}
+
+func (f fcase) facSrc() string {
+	var sb strings.Builder
+	sb.WriteString(factories[f.Gen].src + "\n[")
+	for i, h := range f.Hist {
+		if i > 0 {
+			sb.WriteString(", ")
+		}
+		sb.WriteString("(" + h + ")")
+	}
+	sb.WriteString("]")
+	return sb.String()
+}
+
+func (f fcase) facWant() string {
+	fac := factories[f.Gen]
+	var parts []string
+	for _, h := range f.Hist {
+		var op facOp
+		for _, o := range facOps {
+			if o.src == h {
+				op = o
+			}
+		}
+		step := op.d
+		if op.step > 0 && fac.stepKw && fac.name != "kw-default-from-scope" && fac.name != "literal-in-chain-block" {
+			step = op.step // threaded through recur
+		}
+		var vals []string
+		first := true
+		for i := op.start; i < 10; {
+			vals = append(vals, fmt.Sprint(i))
+			if op.step == -1 {
+				break
+			}
+			if first && op.step > 0 && fac.stepKw {
+				// the explicit step is used for the first recur; without threading the default comes back afterwards
+				i += op.step
+			} else {
+				i += step
+			}
+			first = false
+		}
+		parts = append(parts, "["+strings.Join(vals, ", ")+"]")
+	}
+	return "[" + strings.Join(parts, ", ") + "]"
+}
+
+func judgeFactory(c *core.Ctx, f fcase, o panrun.Obs) {
+	c.Validated(1)
+	c.Nontrivial(1)
+	c.Transition(len(f.Hist))
+	if o.Kind == "syntax" {
+		c.HarnessError("factory program does not parse: %s: %s", f.facSrc(), o.ErrMsg)
+		return
+	}
+	c.Outcome("factory:" + o.Kind)
+	want := f.facWant()
+	if o.Kind == "value" && o.Repr == want {
+		return
+	}
+	c.Violation(core.Violation{Key: "literal-evaluated-again/" + factories[f.Gen].name, Case: core.JSON(f), Desc: strings.ReplaceAll(f.facSrc(), "\n", "; "),
+		Expected: want, Observed: o.Short(), Repro: "zz := {||\n" + f.facSrc() + "\n}\nzz().p\n"})
+}
+
+func runFactory(c *core.Ctx) {
+	depth := c.Pick(3, 4)
+	tk.Batched(c, 300, "", func(emit func(fcase)) {
+		for gi := range factories {
+			var rec func(h []string)
+			rec = func(h []string) {
+				if len(h) > 0 {
+					emit(fcase{Mode: "factory", Gen: gi, Hist: append([]string{}, h...)})
+				}
+				if len(h) == depth {
+					return
+				}
+				for _, o := range facOps {
+					rec(append(h, o.src))
+				}
+			}
+			rec(nil)
+		}
+	}, func(f fcase) string { return f.facSrc() }, func(f fcase, o panrun.Obs) { judgeFactory(c, f, o) })
+}
+
 func runFresh(c *core.Ctx) {
 	depth := c.Pick(3, 4)
 	tk.Batched(c, 300, "", func(emit func(fcase)) {
@@ -487,6 +596,7 @@ func runFresh(c *core.Ctx) {
 
 func run(c *core.Ctx) {
 	runFresh(c)
+	runFactory(c)
 	depth := c.Pick(5, 6)
 	c.Note("depth_after_first_new", depth)
 	states := map[string]bool{}
@@ -510,6 +620,12 @@ func run(c *core.Ctx) {
 
 func replay(c *core.Ctx, raw json.RawMessage) {
 	var f fcase
+	if json.Unmarshal(raw, &f) == nil && f.Mode == "factory" {
+		obs := c.R().Thunks("", []string{f.facSrc()}, "")
+		c.Eval(1)
+		judgeFactory(c, f, obs[0])
+		return
+	}
 	if json.Unmarshal(raw, &f) == nil && f.Mode == "fresh" {
 		obs := c.R().Thunks("", []string{f.src()}, "")
 		c.Eval(1)
